@@ -88,6 +88,10 @@ let compile_of (input : n list) : string =
 
 let handle (line : string) : string =
   match String.split_on_char ' ' line with
+  | "addimport" :: pkg :: lines ->
+    let (i, text) = proxy_add_import (List.map bytes_of_hex lines) (bytes_of_hex pkg) in
+    Printf.sprintf "ok %d %s" (int_of_nat i) (hex_of_bytes text)
+  | [ "detailpkg"; h ] -> "ok " ^ hex_of_bytes (detail_package (bytes_of_hex h))
   | [ "compile"; h ] -> compile_of (bytes_of_hex h)
   | [ "nuke"; h ] -> "ok " ^ hex_of_bytes (nuke (bytes_of_hex h))
   | [ "unquote"; h ] -> (match go_unquote (bytes_of_hex h) with None -> "err" | Some b -> "ok " ^ hex_of_bytes b)
